@@ -339,6 +339,47 @@ func (m *machine) concretizeInt(v value, lo, hi int64) (int64, bool) {
 	return 0, false
 }
 
+const symPlaceholder = "<sym>"
+
+// uniqueValue reports the single feasible value of s under the path condition,
+// if there is exactly one.
+func (m *machine) uniqueValue(s *sym) (value, bool) {
+	if s.k == types.Float64 || s.k == types.Float32 || s.t.K == smt.KF64 {
+		return nil, false
+	}
+	if m.isConcrete {
+		return nil, false
+	}
+	model := m.currentModel()
+	if model == nil {
+		return nil, false
+	}
+	raw, ok := smt.Eval(s.t, model)
+	if !ok {
+		return nil, false
+	}
+	c := m.ctx
+	var cst *smt.Term
+	if s.t.K == smt.KBool {
+		cst = c.Bool(raw != 0)
+	} else {
+		cst = c.Int(raw, s.t.W, s.t.Signed)
+	}
+	ne := c.BNot(c.Cmp(smt.OEq, s.t, cst))
+	if ne.IsConst() {
+		if ne.Val != 0 {
+			return nil, false
+		}
+		return concValue(s.k, raw), true
+	}
+	res, _ := m.check(ne, m.lim.FeasTimeout, false)
+	if res != smt.Unsat {
+		return nil, false
+	}
+	m.assertPC(c.Cmp(smt.OEq, s.t, cst)) // implied by the pc; recorded so that later evaluations fold
+	return concValue(s.k, raw), true
+}
+
 func asUint64Any(x value) uint64 {
 	switch x := x.(type) {
 	case int:
